@@ -21,6 +21,7 @@ import Pdb.Model.C02xDriver
 import Pdb.Model.C11Driver
 import Pdb.Model.RefineRc
 import Pdb.Model.Recover
+import Pdb.Model.ConcReadDriver
 
 open Pdb
 
@@ -123,6 +124,7 @@ structure State where
   lastTree : List String := []   -- tokens of the last `t2 tree` dump (reused by `c04b cursor load`)
   r5 : Pdb.RefineRc.DState := Pdb.RefineRc.DState.init
   p1r : Pdb.RecoverDriver.State := none   -- file-tracking wrapper around p1, fed every `p1` line
+  c05 : Pdb.CRdDriver.State := none
 
 def stepLine (s : State) (line : String) : State × String :=
   let ws := (line.trimAscii.toString.splitOn " ").filter (· ≠ "")
@@ -181,6 +183,9 @@ def stepLine (s : State) (line : String) : State × String :=
   | "c11" :: rest =>
     let (c, o) := Pdb.C11Driver.step s.c11 rest
     ({ s with c11 := c }, o)
+  | "c05" :: rest =>
+    let (c, o) := Pdb.CRdDriver.step s.c05 rest
+    ({ s with c05 := c }, o)
   | [] => (s, "")
   | _ => (s, "bad-op")
 
